@@ -811,6 +811,7 @@ impl H {
         }
         self.absorb();
         self.durable_point();
+        self.xresync();
         let small = Load { keys: 20, ops: 10, max_val: 50, big_val_permille: 0, delete_bias: 0 };
         let mut spec = self.spec_latest.clone();
         let r = {
@@ -829,6 +830,8 @@ impl H {
         self.spec_durable = self.spec_latest.clone();
         self.durable_point();
         self.trace.push("directed: txn(durable,commit)".into());
+        let id = self.db.as_ref().and_then(Self::real_facts).map(|f| f.3).unwrap_or(0);
+        self.xevent(&format!("commit k=1pc id={id}"), None);
         let before = self.file_len();
         let r = {
             let db = self.db.as_ref().unwrap();
@@ -849,6 +852,7 @@ impl H {
             return;
         }
         self.trace.push(format!("directed: txn(durable, 3000 x 1000 bytes, abort) file {before} -> {}", self.file_len()));
+        self.xevent("abort", None);
         if self.file_len() <= before {
             self.fail("directed scenario: the aborted transaction did not grow the file".into());
             return;
@@ -919,6 +923,7 @@ impl H {
         }
         self.absorb();
         self.durable_point();
+        self.xresync();
         // 1. clean close of a multi-region file, reopen through the saved state, grow far beyond the old size
         if !self.direct_insert(0..300, false) {
             return;
@@ -974,6 +979,7 @@ impl H {
         }
         self.absorb();
         self.durable_point();
+        self.xresync();
         for _ in 0..len {
             if self.dead {
                 break;
@@ -1068,6 +1074,8 @@ fn main() {
         } else {
             h.run(len);
         }
+        // (a history that stopped early may still hold its database: close it under `catch`)
+        h.discard_process();
         let mut b = Block::default();
         b.texts.insert("cases".into(), h.cases.clone());
         b.texts.insert("outs".into(), h.outs.clone());
